@@ -27,3 +27,30 @@ Proof. apply must_hit_chk_sound. vm_compute. reflexivity. Qed.
 
 Lemma apply_pending_clears_pending : must_hit installs_epoch clears_pending ev_apply_pending.
 Proof. apply must_hit_chk_sound. vm_compute. reflexivity. Qed.
+
+(* ---- the group state repository (state_repo.rs): the shapes that Model/Storage.v transcribes ---- *)
+(* write_to_storage: encode the pending epochs (may fail), write to the store (may fail), ONLY THEN
+   forget the pending epochs, and only then delete the used key package (may fail) *)
+Lemma repo_write_shape : shape ev_repo_write =
+  [EAlt [[EFail 0]; []]; EFail 0; EAlt [[EFail 0]; []]; EFail 0; EFail 0; EFail 0;
+   EMut "self.pending_commit.inserts.clear()" 0;
+   EMut "self.pending_commit.updates.clear()" 0;
+   EAlt [[EMut "self.key_package_repo.delete()" 0; EFail 0]; []]].
+Proof. vm_compute. reflexivity. Qed.
+
+(* get_epoch_mut: the un-written inserts first - but only for epochs at or after the oldest of
+   them -, then the cached updates, then the store (may fail), whose record is cached *)
+Lemma repo_get_shape : shape ev_repo_get =
+  [EAlt [[EAlt [[];
+                [EAlt [[EMut "self.pending_commit.updates.get_mut().map()" 0];
+                       [EFail 0; EAlt [[EAlt [[EMut "self.pending_commit.updates.push()" 0]; []]]; []]]]]]];
+         [EAlt [[EMut "self.pending_commit.updates.get_mut().map()" 0];
+                [EFail 0; EAlt [[EAlt [[EMut "self.pending_commit.updates.push()" 0]; []]]; []]]]]]].
+Proof. vm_compute. reflexivity. Qed.
+
+(* insert: group id and epoch continuity are checked before the epoch is queued; nothing is written *)
+Lemma repo_insert_shape : shape ev_repo_insert =
+  [EAlt [[EFail 0; EFail 0];
+         [EAlt [[EAlt [[EFail 0; EFail 0]; [EMut "self.pending_commit.inserts.push_back()" 0]]];
+                [EMut "self.pending_commit.inserts.push_back()" 0]]]]].
+Proof. vm_compute. reflexivity. Qed.
